@@ -115,10 +115,22 @@ static script_t *g_il_scripts; static int g_il_m, g_il_in_cb; static rng_t *g_il
 static void *c12_cb(void *ctx, UINT32 size, UINT32 esi)
 {
 	script_t *s = ctx; void *ret = NULL;
-	if (g_il_scripts && !g_il_in_cb && rng_below(g_il_rng, 2) == 0) {
-		int j = (int)rng_below(g_il_rng, (uint32_t)g_il_m);
-		script_t *o = &g_il_scripts[j];
-		if (o != s && o->pc < o->nsteps) { g_il_in_cb = 1; script_step(o); g_il_in_cb = 0; g_il_steps++; }
+	if (g_il_scripts && !g_il_in_cb && rng_below(g_il_rng, 4) != 0) {
+		/* another session advances from inside this callback: a pending session of the same codec if there is one (what two sessions of
+		 * one codec share is what nesting can disturb), else any pending one; now and then it runs to the end of its script */
+		int start = (int)rng_below(g_il_rng, (uint32_t)g_il_m), pick = -1;
+		for (int pass = 0; pass < 2 && pick < 0; pass++) for (int q = 0; q < g_il_m; q++) {
+			script_t *o = &g_il_scripts[(start + q) % g_il_m];
+			if (o == s || o->pc >= o->nsteps) continue;
+			if (pass == 0 && (o->c.codec != s->c.codec || o->c.m != s->c.m)) continue;
+			pick = (start + q) % g_il_m; break;
+		}
+		if (pick >= 0) {
+			script_t *o = &g_il_scripts[pick]; int burst = rng_below(g_il_rng, 3) == 0 ? 64 : 1 + (int)rng_below(g_il_rng, 3);
+			g_il_in_cb = 1;
+			while (burst-- > 0 && o->pc < o->nsteps - 1) { script_step(o); g_il_steps++; }
+			g_il_in_cb = 0;
+		}
 	}
 	s->cbacc += hash64(esi + 1, size) | 1;           /* a commutative accumulation: the set of events, not their order */
 	s->cbn++;
